@@ -518,17 +518,18 @@ fn judge(run: &Run, c: &Case) -> CaseResult {
         }
         return Ok(());
     }
-    let mut first_known = None;
-    for f in fails {
-        if !run.is_known(&f.signature) {
-            return Err(f);
-        }
-        if first_known.is_none() {
-            first_known = Some(f);
-        }
+    // an unregistered failure wins; of the registered ones the first is returned and the others are recorded too
+    if let Some(i) = fails.iter().position(|f| !run.is_known(&f.signature)) {
+        return Err(fails.swap_remove(i));
     }
-    match first_known {
-        Some(f) => Err(f),
+    let mut it = fails.into_iter();
+    match it.next() {
+        Some(first) => {
+            for f in it {
+                run.fail("layout", &f, serde_json::Value::Null);
+            }
+            Err(first)
+        }
         None => Ok(()),
     }
 }
@@ -591,8 +592,8 @@ fn main() {
     run.extra("fixtures", json!(fx.iter().map(|c| c.fixture.clone().unwrap()).collect::<Vec<_>>()));
     run.drive_enum("fixtures", fx, |c| judge(&run, c));
 
-    let n_box: u32 = run.scale(150, 5000);
-    let n_other: u32 = run.scale(60, 1500);
+    let n_box: u32 = run.scale(400, 5000);
+    let n_other: u32 = run.scale(150, 1500);
     for kind in assets::KINDS.iter().copied().chain(["c2pa"]) {
         let kind: &'static str = kind;
         let boxhash = capable.contains(&kind);
